@@ -302,8 +302,13 @@ func (d *discipline) onBroadcastAttempt(mb *gpbft.MessageBuilder, msg *gpbft.GMe
 					best = &e
 				}
 			}
-			if best != nil && !isPrefixOf(best.value, d.input) {
-				// the round's best-ticket value is not on this member's own EC chain: it cannot
+			adm := d.input
+			if d.qualityProposal != nil {
+				adm = d.qualityProposal // the candidates are the prefixes of the proposal formed from QUALITY
+			}
+			if best != nil && !isPrefixOf(best.value, adm) {
+				// the round's best-ticket value is not among this member's candidates (not on its own
+				// EC chain, or beyond the prefix that gathered a QUALITY quorum in its view): it cannot
 				// adopt it (unless swayed by proof), whatever the implementation does
 				d.w.noteIncompatibleBest(d.k, p.Round)
 			}
